@@ -329,6 +329,8 @@ pub enum Outcome {
     CpuTimeout {
         stage: String,
         cpu_s: f64,
+        /// last `stage` line of the case
+        info: Json,
     },
     WallTimeout {
         stage: Json,
@@ -527,6 +529,7 @@ pub fn run_range(spec: &Spec, a: u64, b: u64, sink: &mut dyn FnMut(u64, Outcome)
                                 Outcome::CpuTimeout {
                                     stage: v.get("stage").and_then(|x| x.as_str()).unwrap_or("").to_string(),
                                     cpu_s: v.get("cpu_s").and_then(|x| x.as_f64()).unwrap_or(0.0),
+                                    info: stage.clone(),
                                 },
                             ));
                         }
